@@ -37,6 +37,12 @@ where
             let src = self.inner.fill_buf().await?;
 
             if src.is_empty() {
+                // The header text is `l_text` bytes long. If the underlying stream ends before
+                // that, the header is truncated.
+                if self.inner.get_ref().limit() > 0 {
+                    return Err(io::Error::from(io::ErrorKind::UnexpectedEof));
+                }
+
                 return Ok(n);
             }
 
